@@ -124,6 +124,7 @@ CHECKS["C01"] = dict(
     level_note="B = max(group_wait, group_interval) + 20s slack (hang 8s + largest backoff gap). One route shape here; routing shapes are C07's, cluster wait C08's.",
     assumptions=FAPP_ASSUME,
     units=[dict(pkg="app", test="TestVerifC01App", shards_quick=12, shards_thorough=16, budget_quick=200, budget_thorough=1500),
+           dict(pkg="app", test="TestVerifC01AppSlowFlush", shards_quick=8, shards_thorough=16, budget_quick=120, budget_thorough=900),
            dict(pkg="dispatch", test="TestVerifC01Sched", gomaxprocs=1, shards_quick=4, shards_thorough=16, budget_quick=60, budget_thorough=1500)],
 )
 CHECKS["C04"] = dict(
